@@ -62,14 +62,14 @@ class ApproxInterp(ArrInterp):
 
     def external_call(self, name, args, kwargs, node):
         r = self.root
-        if name.endswith("_connected_components"):
+        if self.prog.is_anchor(name, "_functionals:_connected_components"):
             arr = args[0] if args else kwargs.get("array")
             be = args[1] if len(args) > 1 else kwargs.get("cca_backend")
             r.cca_calls.append((arr, be, node))
             side = arr.side if isinstance(arr, AArr) else "?"
             out = AArr("CC_" + side, True)
             return (out, Sym("N_" + side))
-        if name.endswith("_get_smallest_fitting_uint"):
+        if self.prog.is_anchor(name, "utils.numpy_utils:_get_smallest_fitting_uint"):
             r.fit_calls.append((args[0] if args else None, node))
             return Sym("FITDTYPE")
         if name.endswith("UnmatchedInstancePair") or name.endswith("MatchedInstancePair"):
@@ -272,7 +272,7 @@ def check_negative_guard(ctx: Ctx):
                     guard = pc
         ctx.decide("R05.4", f, c, f"{f.qual}:negative-guard", "the cast to an unsigned dtype is dominated by the rejection of negative labels", guard is not None, {"path_condition": [p.text() for p in pcs]})
     # dtype sized from both label ranges: the fitting call's argument depends on both sides
-    fits = [c for c in prog.calls_in(f) if (isinstance(c.func, ast.Name) and c.func.id == "_get_smallest_fitting_uint")]
+    fits = [c for c in prog.calls_in(f) if (isinstance(c.func, ast.Name) and c.func.id == prog.anchor_name("utils.numpy_utils:_get_smallest_fitting_uint"))]
     for c in fits:
         names = _deps(f, c.args[0] if c.args else None)
         both = any(n.lower().startswith("pred") for n in names) and any(n.lower().startswith("ref") for n in names)
